@@ -2,6 +2,11 @@
 
 package ice
 
+import (
+	"log/slog"
+	"net"
+)
+
 // Export shim for the verification harness (overlaid at build time from /verif).
 
 type VerifTurn struct {
@@ -15,4 +20,9 @@ func VerifParseTurnServer(raw string) (VerifTurn, error) {
 		return VerifTurn{}, err
 	}
 	return VerifTurn{c.addr, c.username, c.password, c.realm, c.serverName, c.useTCP, c.useTLS, c.insecureTLS}, nil
+}
+
+// VerifNewProber builds a Prober on an existing UDP socket without STUN/TURN discovery (offline harness).
+func VerifNewProber(conn *net.UDPConn, logger *slog.Logger) *Prober {
+	return &Prober{config: ProberConfig{}, logger: logger, udpConn: conn}
 }
